@@ -22,14 +22,17 @@ def handle (line : String) : String :=
       | 0 => do
         let del ← tokBool; let curNil ← tokBool; let cur ← tok; let tpls ← tokNat; let expect ← tok
         let repNil ← tokBool; let rep ← tok; let upd ← tokBool
+        let updOk ← tokBool; let errRet ← tokBool
         let deleted ← many (do let t ← tokNat; let i ← tok; pure (t, i))
         let curO := if curNil then none else some cur
         let ob : ScaleResult := ⟨if repNil then none else some rep, upd, deleted⟩
-        let m := changeScale del curO tpls expect
-        let ok := C18.scale del curO tpls expect ob
-        let mok := C18.scale del curO tpls expect m
-        let tag := if curNil then "nil" else if cur == expect then "noop" else if expect < cur then (if del then "down-del" else "down") else "up"
-        pure s!"case {id} match={if m == ob then 1 else 0} impl={if ok then "ok" else "scale"} model={if mok then "ok" else "scale"} tags {tag}"
+        let (m, merr) := changeScaleE del curO tpls expect updOk
+        let rejected := !updOk && upd
+        let ok := if rejected then C18.scaleRejected curO ob errRet else C18.scale del curO tpls expect ob && !errRet
+        let mok := if !updOk && m.updated then C18.scaleRejected curO m merr else C18.scale del curO tpls expect m && !merr
+        let tag := if curNil then "nil" else if cur == expect then "noop" else
+          if !updOk then "update-rejected" else if expect < cur then (if del then "down-del" else "down") else "up"
+        pure s!"case {id} match={if m == ob && merr == errRet then 1 else 0} impl={if ok then "ok" else "scale"} model={if mok then "ok" else "scale"} tags {tag}"
       | 1 => do
         let pods ← many pPod
         let rows ← many pRow
